@@ -1,3 +1,9 @@
 INIT Init
 NEXT Next
+INVARIANT T_SortIsArgsort
+INVARIANT T_ZeroWeightNeverUsed
+INVARIANT T_MaskInCallerOrder
+INVARIANT T_ReturnedCurveIsLastFit
+INVARIANT T_WithinBudget
+INVARIANT T_RejectedStayOut
 CHECK_DEADLOCK FALSE
